@@ -72,6 +72,73 @@ def run(F, rep):
                 det = '%sFunctionString() is emitted under %s' % (lc(X), sorted(cc for cc, t in rc if 'need' in cc or 'Operator' in cc))
         rep.check(good, 'C17.N3', X, emits[0][0].where(emits[0][1]), det, 'emitted under need%sFunction()' % X + (' && !has%sOperator()' % X if X in OPERATOR_BACKED else ''))
 
+    # N4: an early return in an emitting function may only be taken when none of the helpers emitted after it is needed
+    rep.rule('C17.N4', 'a function of the generator that emits helper definitions returns early only under a condition that implies that NONE of the helpers it would emit further down is needed '
+                       '(decided by evaluating the condition, named sub-conditions spelled out, for every assignment of the need<X>Function() flags): a "nothing to do" shortcut that forgets one flag drops that helper for the models that need only it')
+    from engines import value_of as _vo17, enclosing_conditions as _enc17
+    import itertools as _it17
+
+    def _atoms(g_, e, acc):
+        e = _vo17(g_, e)
+        if e is None:
+            return ('const', True)
+        k_ = e.get('k')
+        if k_ == 'Bin' and e.get('op') in ('&&', '||'):
+            return (e['op'], _atoms(g_, e['c'][0], acc), _atoms(g_, e['c'][1], acc))
+        if k_ == 'Un' and e.get('op') == '!':
+            return ('!', _atoms(g_, e['c'][0], acc))
+        if k_ == 'Bool':
+            return ('const', bool(e.get('v')))
+        name = e.get('fn') if (k_ == 'Call' and re.match(r'need\w+Function$', e.get('fn') or '')) else render(e)[:80]
+        acc.add(name)
+        return ('atom', name)
+
+    def _ev(t, env):
+        if t[0] == 'const':
+            return t[1]
+        if t[0] == 'atom':
+            return env[t[1]]
+        if t[0] == '!':
+            return not _ev(t[1], env)
+        if t[0] == '&&':
+            return _ev(t[1], env) and _ev(t[2], env)
+        return _ev(t[1], env) or _ev(t[2], env)
+    n_n4 = 0
+    for gf in gens:
+        emits_ = [(c, re.match(r'^(\w+)FunctionString$', c.get('fn') or '').group(1)) for c in gf.walk() if c.get('k') == 'Call' and re.match(r'^\w+FunctionString$', c.get('fn') or '') and (c.get('cls') or '').endswith('GeneratorProfile')]
+        if not emits_:
+            continue
+        for r_ in gf.walk():
+            if r_.get('k') != 'Return' or gf.enclosing_lambda(r_) is not None:
+                continue
+            later = sorted({x_[0].upper() + x_[1:] for c, x_ in emits_ if c.get('l', 0) > r_.get('l', 0)})
+            if not later:
+                continue
+            n_n4 += 1
+            acc = set()
+            conj = ('const', True)
+            for cnd, br, st in _enc17(gf, r_):
+                t_ = _atoms(gf, cnd, acc)
+                conj = ('&&', conj, t_ if br == 'then' else ('!', t_))
+            names = sorted(acc)
+            if len(names) > 16:
+                raise AnalysisBroken('C17.N4: the condition of the early return in %s has %d atoms' % (gf.short, len(names)))
+            forgotten = []
+            for X in later:
+                a_ = 'need%sFunction' % X
+                if a_ not in acc:
+                    forgotten.append(X)
+                    continue
+                for vals in _it17.product((False, True), repeat=len(names)):
+                    env = dict(zip(names, vals))
+                    if env[a_] and _ev(conj, env):
+                        forgotten.append(X)
+                        break
+            rep.check(not forgotten, 'C17.N4', '%s|return@%s' % (gf.short.split('::')[-1], r_.get('l')), gf.where(r_),
+                      '%s can return early although the model needs %s (the condition of the return does not depend on need%sFunction()): the helper is called by the generated code and never defined' % (gf.short, forgotten[:4], forgotten[0] if forgotten else ''),
+                      'taken only when none of %d later helpers is needed' % len(later))
+    rep.ok('C17.N4', 'scan', None, '%d early returns in front of helper emissions' % n_n4)
+
     # ------------------------------------------------------------------ I
     rep.rule('C17.I1', 'for every family with an interface and an implementation form, both emitters are guarded by the same model predicates and pass the same arguments to the profile getters')
     gi = [f for f in F.funcs.values() if f.cls in ('libcellml::Generator::GeneratorImpl', 'libcellml::Generator')]
